@@ -24,7 +24,7 @@ from feems.components_model.utility import integrate_data, integrate_data_accumu
 from feems.components_model.node import get_duration_s
 from feems.fuel import FuelSpecifiedBy
 
-THEOREMS = ["total_eq_sum", "append", "split", "perm", "scale", "duration_eq", "duration_append", "singleton", "integrate_is_total",
+THEOREMS = ["dot_replicate", "integrateC_eq", "integrateC_constant", "integrate_legacy_refuses_constant", "total_eq_sum", "append", "split", "perm", "scale", "duration_eq", "duration_append", "singleton", "integrate_is_total",
             "running_hours_append", "running_hours_scale", "dot_append", "component_figures_append", "component_fuel_append"]
 EXTRA_PROOF_MODULES = ["FeemsProofs.C11Component"]
 DEPENDS_ON_MODULES = ["FeemsProofs.C17"]
@@ -176,7 +176,8 @@ def run_integrate_case(ctx, rng, model=True):
         v = float(integrate_data(data_to_integrate=np.array(rate), time_interval_s=dt, integration_method=IntegrationMethod.sum_with_time))
     except Exception:
         v = None
-    want = float(np.sum(np.asarray(rate) * dt)) if (isinstance(dt, np.ndarray) and len(dt) == n) or (not isinstance(dt, np.ndarray) and n == 1) else None
+    # defined when the lengths agree, or for a single value: it stands for a constant over all the intervals
+    want = float(np.sum(np.asarray(rate) * dt)) if (isinstance(dt, np.ndarray) and (len(dt) == n or n == 1)) or (not isinstance(dt, np.ndarray) and n == 1) else None
     if (v is None) != (want is None) or (v is not None and not close(v, want, scale=abs(want))):
         ctx.fail("predicate", "integral-not-interval-weighted-sum", f"integrate_data({rate}, {dt}) = {v}, interval-weighted sum {want}", where)
     if model and ctx.model_available:
